@@ -458,7 +458,7 @@ func checkC09(c *Ctx, r *Report) {
 	}
 	if f := r6.need(dsP + ".removeExpired"); f != nil {
 		found := false
-		for _, b := range f.Blocks {
+		for _, b := range blocksDeep(f) {
 			ifi, isIf := b.Instrs[len(b.Instrs)-1].(*ssa.If)
 			if !isIf {
 				continue
@@ -575,7 +575,7 @@ func checkC09(c *Ctx, r *Report) {
 	{
 		nSorts := 0
 		for _, f := range c.FnsOfPkg(dsP) {
-			allInstrs(f, func(in ssa.Instruction) {
+			allInstrsIn(f, func(in ssa.Instruction) {
 				call, ok := in.(*ssa.Call)
 				if !ok {
 					return
@@ -632,7 +632,7 @@ func checkC09(c *Ctx, r *Report) {
 					return 0
 				}
 				var first, second ssa.Value
-				allInstrs(g, func(x ssa.Instruction) {
+				allInstrsIn(g, func(x ssa.Instruction) {
 					v, ok := x.(ssa.Value)
 					if !ok {
 						return
